@@ -298,7 +298,8 @@ class Walker:
 
 # ======================================================================== the walk
 class _Ctx:
-    def __init__(self, walker: Walker, fn: FuncInfo, opts: WalkOptions, inline_stack: Tuple[str, ...] = ()):
+    def __init__(self, walker: Walker, fn: FuncInfo, opts: WalkOptions, inline_stack: Tuple[str, ...] = (), root_types=None):
+        self.root_types = root_types      # types of the outermost frame's names (free symbols of inlined bodies live there)
         self.w = walker
         self.prog = walker.prog
         self.ti = walker.ti
@@ -308,6 +309,13 @@ class _Ctx:
         self.types = self.ti.local_types(fn)
 
     # ------------------------------------------------------------------ helpers
+    def _own_locals(self):
+        """Names bound inside this (inlined) function other than its parameters: loop variables, assignments."""
+        if not hasattr(self, '_ol'):
+            ps = set(self.fn.params + self.fn.kwonly)
+            self._ol = {k for k in self.types if k not in ps}
+        return self._ol
+
     def emit(self, st: State, kind: str, node: ast.AST, **data) -> Event:
         ev = Event(kind, node, data, st.loops, self.inline_stack)
         st.events.append(ev)
@@ -480,7 +488,8 @@ class _Ctx:
             return None
         self.emit(st, 'call', e, targets=[callee], target_kind='pkg', callee_name=callee.qualname, recv=recv if skip_self else None,
                   args=tuple(args), kw=tuple(sorted(kw.items())), via=tgt.via, expr=e, result=None, inlined=True, full_inline=True)
-        sub = _Ctx(self.w, callee, self.opts, self.inline_stack + (callee.qualname,))
+        sub = _Ctx(self.w, callee, self.opts, self.inline_stack + (callee.qualname,),
+                   root_types=self.root_types if self.root_types is not None else self.types)
         saved = dict(st.env)
         st.env = dict(benv)
         outs = []
@@ -536,7 +545,7 @@ class _Ctx:
                 self.assert_cond(r, cond)
                 rev = Event('raise', ev.node, {'exc': rs.exc, 'via': (ev.data.get('callee_name', '?'),) + rs.via,
                                                'callee_writes': rs.writes_before, 'callee_line': rs.line,
-                                               'direct': False}, r.loops, self.inline_stack)
+                                               'direct': False, 'arms': list(ev.data.get('arms', []))}, r.loops, self.inline_stack)
                 r.events.append(rev)
                 r.status = 'raise'
                 out.append(r)
@@ -946,7 +955,10 @@ class _Ctx:
         if isinstance(t, App) and t.fn == '@v':
             return self.term_type(t.args[0])
         if isinstance(t, Sym):
-            return self.types.get(t.name.rstrip("'"))
+            nm = t.name.rstrip("'")
+            if self.root_types is not None and nm in self.root_types and nm not in self._own_locals():
+                return self.root_types[nm]
+            return self.types.get(nm)
         if isinstance(t, Attr):
             return self.ti.attr_type(self.term_type(t.base), t.name)
         if isinstance(t, Sub):
@@ -1252,8 +1264,16 @@ class _Ctx:
 
     def ex_IfExp(self, e, st):
         c = self.formula(self.ev(e.test, st), st)
+        n0 = len(st.events)
         a = self.ev(e.body, st)
+        n1 = len(st.events)
         b = self.ev(e.orelse, st)
+        # events of the two arms are mutually exclusive: tag them so that order rules do not read one arm's effect as
+        # preceding the other arm's raise
+        for ev_ in st.events[n0:n1]:
+            ev_.data.setdefault('arms', []).append((id(e), 'body'))
+        for ev_ in st.events[n1:]:
+            ev_.data.setdefault('arms', []).append((id(e), 'orelse'))
         d = self.decide(st, c) if self.opts.prune else None
         if d is not None:
             c = FConst(d)
@@ -1405,7 +1425,8 @@ class _Ctx:
         benv = self.bind_args(callee, recv, args, kw, st, skip_self)
         if benv is None:
             return None
-        sub_ctx = _Ctx(self.w, callee, self.opts, self.inline_stack + (callee.qualname,))
+        sub_ctx = _Ctx(self.w, callee, self.opts, self.inline_stack + (callee.qualname,),
+                       root_types=self.root_types if self.root_types is not None else self.types)
         saved_env = st.env
         st.env = benv
         try:
